@@ -354,7 +354,13 @@ func gen1(r *simrt.Rand, c GenCfg) *Journal {
 		if zero {
 			j.Dirs = append(j.Dirs, Dir{Kind: "close", Date: closeDay, Account: a})
 			if r.P(c.PReopen) {
-				j.Dirs = append(j.Dirs, Dir{Kind: "open", Date: closeDay + Day(r.Range(1, 5)), Account: a})
+				ro := closeDay + Day(r.Range(1, 5))
+				j.Dirs = append(j.Dirs, Dir{Kind: "open", Date: ro, Account: a})
+				if r.P(0.7) {
+					// the re-opened account is used again
+					j.Dirs = append(j.Dirs, Dir{Kind: "txn", Date: ro + Day(r.Range(0, 20)), Desc: "after reopening", QStyle: r.Intn(3),
+						Bookings: []Booking{{Credit: "Equity:Equity", Debit: a, Qty: Q(r.Range(1, 5000)) * 100, Com: g.coms[r.Intn(len(g.coms))]}}})
+				}
 			}
 		}
 	}
